@@ -740,13 +740,11 @@ func vfC01Judge(c *vfC01Case, st vfC01Step, o vfC01Obs, tamperedBefore bool) (st
 	// A zone that is properly unsigned can be made to say anything, and the tamper script did make it say something else:
 	// when responses of an insecure zone earlier on the chain were altered, the chain computed from the honest world no
 	// longer describes what sdns was shown after that point - the alias that led into the bogus zone may never have
-	// arrived. Such a reply is judged for AD only.
-	if tampered {
+	// arrived. Such a reply, when it claims no authenticity (AD clear), is not judged further; one with AD set goes
+	// through the checks below like any other.
+	if tampered && !m.AuthenticatedData {
 		for i := 0; i < len(g.Steps) && (bogusAt < 0 || i < bogusAt); i++ {
 			if s := g.Steps[i]; s.Zone != nil && !s.Secure && !s.Bogus && vfmodel.IsSubdomain(s.Zone.Apex, c.Tamper.Zone) {
-				if m.AuthenticatedData {
-					return "AD set on a reply that passes through an insecure zone whose responses were altered", cls
-				}
 				return "", append(cls, "altered-in-an-insecure-zone")
 			}
 		}
